@@ -273,7 +273,12 @@ struct generic_epoch_based<Traits>::thread_data {
 
   void leave_region() {
     if (Traits::region_extension_type != region_extension::none && --region_entries == 0) {
-      clear_critical_region_flag();
+      // with lazy region extension the critical region is only entered once a guard_ptr is created,
+      // so there is nothing to leave if no guard_ptr was created inside the region_guard's scope.
+      if (Traits::region_extension_type == region_extension::eager ||
+          control_block->is_in_critical_region.load(std::memory_order_relaxed)) {
+        clear_critical_region_flag();
+      }
     }
   }
 
